@@ -11,8 +11,8 @@
     Assumed (section hypotheses, named in the trusted base): the codec round trip, and that the page-header
     parser reads back what the header encoder wrote without looking past it (C13 for carquet's Thrift code). *)
 From Coq Require Import NArith ZArith Arith List Bool Lia.
-From Carquet Require Import Base.Res Gen.Enums_gen Enc.DeltaBits Util.Crc32Model
-  Writer.TableSpec Writer.PageWriterModel Writer.ColumnWriterModel Writer.FileWriterModel
+From Carquet Require Import Base.Res Base.Bits Gen.Enums_gen Enc.DeltaBits Util.Crc32Model Util.Crc32Proofs
+  Stats.StatsBuilderModel Writer.TableSpec Writer.PageWriterModel Writer.ColumnWriterModel Writer.FileWriterModel
   Reader.PageDecodeModel Reader.ReadAllModel Writer.WriterProofs.
 Import ListNotations.
 Local Open Scope N_scope.
@@ -21,6 +21,26 @@ Local Open Scope N_scope.
 Definition core_of (h : page_hdr) : hdr_core :=
   mkhc E_CARQUET_PAGE_DATA (h_uncompressed h) (h_compressed h) (Some (h_crc h)) (h_num_values h)
        E_CARQUET_ENCODING_PLAIN E_CARQUET_ENCODING_RLE.
+
+(** the page headers the writer emits within the int32 fields of the format: what the header encoder and parser
+    have to agree on *)
+Definition stats_rec_ok (o : option pstats) : Prop :=
+  match o with
+  | None => True
+  | Some s => (0 <= ps_null_count s < 2 ^ 31)%Z /\
+              exists mn mx, ps_min_value s = Some mn /\ ps_max_value s = Some mx /\ small_val mn /\ small_val mx
+  end.
+
+Definition hdr_ok (h : page_hdr) : Prop :=
+  h_uncompressed h < 2 ^ 31 /\ h_compressed h < 2 ^ 31 /\ h_crc h < 2 ^ 32 /\ h_num_values h < 2 ^ 31 /\
+  stats_rec_ok (h_stats h).
+
+Lemma crc32_lt bs : is_bytes bs -> crc32 bs < 2 ^ 32.
+Proof.
+  intros Hb. unfold crc32, crc32_update.
+  destruct (slice8_spec bs (not32 0) ltac:(rewrite not32_ones; exact ones32_lt) Hb) as [_ L].
+  unfold not32 at 1. apply lxor_lt_pow2; [exact L|reflexivity].
+Qed.
 
 Section Chunk.
   Variable codec : Z.
@@ -33,9 +53,11 @@ Section Chunk.
   Hypothesis codec_uncompressed : Z.eqb codec E_CARQUET_COMPRESSION_UNCOMPRESSED = true -> forall b, compress b = b.
   Hypothesis codec_roundtrip : Z.eqb codec E_CARQUET_COMPRESSION_UNCOMPRESSED = false ->
     forall b, is_bytes b -> len b < 2 ^ 31 -> decompress (compress b) (len b) = Ok b.
-  Hypothesis header_roundtrip : forall h rest, parse_header (header h ++ rest) = Ok (core_of h, len (header h)).
-  Hypothesis header_small : forall h, len (header h) <= 256.
-  Hypothesis header_nonempty : forall h, 0 < len (header h).
+  Hypothesis compress_bytes : forall b, is_bytes b -> len b < 2 ^ 31 -> is_bytes (compress b).
+  Hypothesis header_roundtrip : forall h rest, hdr_ok h ->
+    parse_header (header h ++ rest) = Ok (core_of h, len (header h)).
+  Hypothesis header_small : forall h, hdr_ok h -> len (header h) <= 256.
+  Hypothesis header_nonempty : forall h, hdr_ok h -> 0 < len (header h).
 
   Notation finalize := (finalize compress header).
   Notation read_page := (read_page codec decompress parse_header verify).
@@ -48,7 +70,20 @@ Section Chunk.
 
   (** a page the column writer may flush: built from non-empty rows, sizes within the int32 fields *)
   Definition good_page (c : column) (p : pw) (rows : list row) : Prop :=
-    PInv c p rows /\ rows <> [] /\ len rows < 2 ^ 31 /\ len (page_body p) < 2 ^ 31.
+    PInv c p rows /\ rows <> [] /\ len rows < 2 ^ 31 /\ len (page_body p) < 2 ^ 31 /\
+    len (compress (page_body p)) < 2 ^ 31.
+
+  Lemma good_page_hdr c p rows : good_page c p rows -> hdr_ok (page_header_of compress p).
+  Proof.
+    intros (I & Hne & Hn & Hsz & Hcz). unfold hdr_ok, page_header_of.
+    cbn [h_uncompressed h_compressed h_crc h_num_values h_stats].
+    split; [exact Hsz|]. split; [exact Hcz|].
+    split; [apply crc32_lt, compress_bytes; [apply (page_body_bytes c p rows I Hn)|exact Hsz]|].
+    split; [rewrite (pi_num c p rows I); exact Hn|].
+    destruct (pi_stats c p rows I) as [_ _ _ Nl Smin Smax]. unfold pw_statistics.
+    destruct (pw_has_min_max (p_stats p)); [|exact Logic.I]. cbn [stats_rec_ok ps_null_count ps_min_value ps_max_value].
+    split; [|eauto 6]. unfold len in Hn, Nl. unfold row in Hn, Nl. change (2 ^ 31)%Z with 2147483648%Z. change (2 ^ 31) with 2147483648 in Hn. lia.
+  Qed.
 
   Lemma skipn_len_app {A} (a b : list A) : skipn (N.to_nat (len a)) (a ++ b) = b.
   Proof. unfold len. rewrite Nat2N.id, skipn_app, Nat.sub_diag, skipn_O, skipn_all. reflexivity. Qed.
@@ -60,17 +95,18 @@ Section Chunk.
   Lemma read_page_spec c p rows pre post : column_ok c = true -> good_page c p rows ->
     read_page c (pre ++ page_bytes p ++ post) (len pre) = Ok (rows, len rows, len (page_bytes p)).
   Proof.
-    intros Hc (I & Hne & Hn & Hsz). unfold ReadAllModel.read_page.
-    set (h := page_header_of compress p). set (comp := compress (page_body p)).
+    intros Hc G. pose proof (good_page_hdr c p rows G) as Hok. destruct G as (I & Hne & Hn & Hsz & Hcz).
+    unfold ReadAllModel.read_page.
+    set (h := page_header_of compress p) in *. set (comp := compress (page_body p)).
     rewrite page_bytes_eq. fold h comp.
-    assert (Hpos : 0 < len (header h)) by apply header_nonempty.
+    assert (Hpos : 0 < len (header h)) by (apply header_nonempty, Hok).
     assert (E0 : (len (pre ++ (header h ++ comp) ++ post) <=? len pre) = false).
     { apply N.leb_gt. rewrite !len_app'. lia. }
     rewrite E0, skipn_len_app, <- app_assoc.
     assert (W : firstn 256 (header h ++ comp ++ post)
                 = header h ++ firstn (256 - length (header h)) (comp ++ post)).
-    { rewrite firstn_app. f_equal. apply firstn_all2. pose proof (header_small h) as S. unfold len in S. lia. }
-    rewrite W, header_roundtrip. cbn [core_of hc_type hc_compressed hc_crc hc_uncompressed hc_num_values
+    { rewrite firstn_app. f_equal. apply firstn_all2. pose proof (header_small h Hok) as S. unfold len in S. lia. }
+    rewrite W, header_roundtrip by exact Hok. cbn [core_of hc_type hc_compressed hc_crc hc_uncompressed hc_num_values
                                       hc_encoding hc_def_encoding].
     rewrite Z.eqb_refl. cbn [negb].
     assert (Hc2 : h_compressed h = len comp) by reflexivity.
@@ -94,8 +130,11 @@ Section Chunk.
   (** pages in sequence *)
   Definition chunk_bytes (ps : list pw) : list N := flat_map page_bytes ps.
 
-  Lemma page_bytes_nonempty p : 0 < len (page_bytes p).
-  Proof. rewrite page_bytes_eq, len_app'. pose proof (header_nonempty (page_header_of compress p)). lia. Qed.
+  Lemma page_bytes_nonempty c p rows : good_page c p rows -> 0 < len (page_bytes p).
+  Proof.
+    intros G. rewrite page_bytes_eq, len_app'.
+    pose proof (header_nonempty (page_header_of compress p) (good_page_hdr c p rows G)). lia.
+  Qed.
 
   Lemma read_chunk_pages c : column_ok c = true -> forall ps rss pre post fuel,
     Forall2 (good_page c) ps rss -> (length ps <= fuel)%nat ->
@@ -238,44 +277,55 @@ Section Chunk.
     destruct H as [->|H]; [lia|]. specialize (IH H). lia.
   Qed.
 
-  (** the pages of a finished chunk are readable pages as soon as the chunk's own totals fit the int32 fields *)
-  Lemma good_pages c w ps rss pend : CInv c w ps rss pend ->
-    w_total_values w < 2 ^ 31 -> w_total_uncompressed w < 2 ^ 31 -> Forall2 (good_page c) ps rss.
+  Lemma chunk_bytes_sum ps : len (chunk_bytes ps) = sumN (map (fun p => len (page_bytes p)) ps).
   Proof.
-    intros [Hp _ _ Hv _ Hu _] Bv Bu. rewrite Hu in Bu. apply sumN_bound in Bu. rewrite Forall_map in Bu.
-    assert (Hr : forall rows, In rows rss -> len rows < 2 ^ 31).
-    { intros rows Hin. pose proof (len_concat_ge rss rows Hin). lia. }
-    clear Hv Hu. induction Hp as [|p rows ps' rss' [Hi Hne] Hp IH]; [constructor|].
-    inversion Bu as [|? ? Bp Bps]; subst. constructor.
-    - split; [exact Hi|]. split; [exact Hne|]. split; [apply Hr; left; reflexivity|lia].
-    - apply IH; [exact Bps|]. intros r Hin. apply Hr. right. exact Hin.
+    induction ps as [|p ps IH]; [reflexivity|]. cbn [chunk_bytes flat_map map sumN fold_right].
+    fold (chunk_bytes ps) (sumN (map (fun p => len (page_bytes p)) ps)). rewrite len_app', IH. reflexivity.
   Qed.
 
-  Lemma chunk_bytes_len ps : (length ps <= length (chunk_bytes ps))%nat.
+  (** the pages of a finished chunk are readable pages as soon as the chunk's own totals fit the int32 fields *)
+  Lemma good_pages c w ps rss pend : CInv c w ps rss pend ->
+    w_total_values w < 2 ^ 31 -> w_total_uncompressed w < 2 ^ 31 -> w_total_compressed w < 2 ^ 31 ->
+    Forall2 (good_page c) ps rss.
   Proof.
-    induction ps as [|p ps IH]; [cbn; lia|]. cbn [chunk_bytes flat_map length]. rewrite app_length.
-    pose proof (page_bytes_nonempty p) as P. unfold len in P. fold (chunk_bytes ps). lia.
+    intros [Hp _ _ Hv Hcm Hu _] Bv Bu Bc. rewrite Hu in Bu. apply sumN_bound in Bu. rewrite Forall_map in Bu.
+    rewrite Hcm in Bc. apply sumN_bound in Bc. rewrite Forall_map in Bc.
+    assert (Hr : forall rows, In rows rss -> len rows < 2 ^ 31).
+    { intros rows Hin. pose proof (len_concat_ge rss rows Hin). lia. }
+    clear Hv Hu Hcm. induction Hp as [|p rows ps' rss' [Hi Hne] Hp IH]; [constructor|].
+    inversion Bu as [|? ? Bp Bps]; subst. inversion Bc as [|? ? Cp Cps]; subst. constructor.
+    - split; [exact Hi|]. split; [exact Hne|]. split; [apply Hr; left; reflexivity|]. split; [lia|].
+      rewrite page_bytes_eq, len_app' in Cp. lia.
+    - apply IH; [exact Bps|exact Cps|]. intros r Hin. apply Hr. right. exact Hin.
+  Qed.
+
+  Lemma chunk_bytes_len c ps rss : Forall2 (good_page c) ps rss -> (length ps <= length (chunk_bytes ps))%nat.
+  Proof.
+    intros G. induction G as [|p rows ps rss Gp G IH]; [cbn; lia|]. cbn [chunk_bytes flat_map length]. rewrite app_length.
+    pose proof (page_bytes_nonempty c p rows Gp) as P. unfold len in P. fold (chunk_bytes ps). lia.
   Qed.
 
   (** from the invariant: the finished chunk reads back as all rows the column writer has seen *)
   Theorem chunk_roundtrip_inv c w ps0 rss0 pend0 : column_ok c = true -> CInv c w ps0 rss0 pend0 ->
     let f := cw_finalize compress header w in
-    w_total_values f < 2 ^ 31 -> w_total_uncompressed f < 2 ^ 31 ->
+    w_total_values f < 2 ^ 31 -> w_total_uncompressed f < 2 ^ 31 -> len (w_buf f) < 2 ^ 31 ->
     p_col (w_page f) = c /\
     w_total_values f = len (concat rss0 ++ pend0) /\
     forall pre post fuel, (length (w_buf f) <= fuel)%nat ->
       read_chunk fuel c (pre ++ w_buf f ++ post) (len pre) (w_total_values f) = Ok (concat rss0 ++ pend0).
   Proof.
-    intros Hc I0 f Bv Bu.
+    intros Hc I0 f Bv Bu Bc.
     destruct (cw_finalize_inv c w ps0 rss0 pend0 I0) as (ps & rss & I & R). fold f in I.
-    pose proof (good_pages c f ps rss [] I Bv Bu) as G.
+    assert (Bc' : w_total_compressed f < 2 ^ 31).
+    { rewrite (ci_comp _ _ _ _ _ I), <- chunk_bytes_sum, <- (ci_buf _ _ _ _ _ I). exact Bc. }
+    pose proof (good_pages c f ps rss [] I Bv Bu Bc') as G.
     assert (Ev : w_total_values f = len (concat rss0 ++ pend0)).
     { rewrite (ci_values _ _ _ _ _ I), R. cbn [len length N.of_nat]. lia. }
     split; [exact (pi_col _ _ _ (ci_page _ _ _ _ _ I))|].
     split; [exact Ev|]. intros pre post fuel Hf.
     rewrite Ev, <- R, (ci_buf _ _ _ _ _ I).
     apply read_chunk_pages; [exact Hc|exact G|].
-    rewrite (ci_buf _ _ _ _ _ I) in Hf. pose proof (chunk_bytes_len ps). lia.
+    rewrite (ci_buf _ _ _ _ _ I) in Hf. pose proof (chunk_bytes_len c ps rss G). lia.
   Qed.
 
   (** C01, chunk layer: whatever the partition of the column's rows into write_batch calls and whatever the
@@ -283,15 +333,15 @@ Section Chunk.
   Theorem chunk_roundtrip c page_size bs w : column_ok c = true -> forallb (batch_ok c) bs = true ->
     cw_write_all (cw_init c page_size) bs = Ok w ->
     let f := cw_finalize compress header w in
-    w_total_values f < 2 ^ 31 -> w_total_uncompressed f < 2 ^ 31 ->
+    w_total_values f < 2 ^ 31 -> w_total_uncompressed f < 2 ^ 31 -> len (w_buf f) < 2 ^ 31 ->
     w_total_values f = len (rows_of c bs) /\
     forall pre post fuel, (length (w_buf f) <= fuel)%nat ->
       read_chunk fuel c (pre ++ w_buf f ++ post) (len pre) (w_total_values f) = Ok (rows_of c bs).
   Proof.
-    intros Hc Hb E f Bv Bu.
+    intros Hc Hb E f Bv Bu Bc.
     destruct (cw_write_all_inv c bs _ [] [] [] (cinv_init c page_size) Hb) as (w1 & ps1 & rss1 & pend1 & E1 & I1 & R1).
     rewrite E in E1. inversion E1; subst w1. cbn [concat app] in R1.
-    destruct (chunk_roundtrip_inv c w ps1 rss1 pend1 Hc I1 Bv Bu) as (_ & Ev & Rd).
+    destruct (chunk_roundtrip_inv c w ps1 rss1 pend1 Hc I1 Bv Bu Bc) as (_ & Ev & Rd).
     rewrite R1 in Ev, Rd. split; [exact Ev|exact Rd].
   Qed.
 End Chunk.
@@ -309,6 +359,7 @@ Example chunk_hypotheses_satisfiable :
     end in
   (forall b, compress b = b) /\
   (forall b, is_bytes b -> len b < 2 ^ 31 -> decompress (compress b) (len b) = Ok b) /\
-  (forall h rest, parse_header (header h ++ rest) = Ok (core_of h, len (header h))) /\
-  (forall h, len (header h) <= 256) /\ (forall h, 0 < len (header h)).
-Proof. cbv zeta. repeat split; intros; try reflexivity; cbn; lia. Qed.
+  (forall b, is_bytes b -> len b < 2 ^ 31 -> is_bytes (compress b)) /\
+  (forall h rest, hdr_ok h -> parse_header (header h ++ rest) = Ok (core_of h, len (header h))) /\
+  (forall h, hdr_ok h -> len (header h) <= 256) /\ (forall h, hdr_ok h -> 0 < len (header h)).
+Proof. cbv zeta. repeat split; intros; try reflexivity; try assumption; cbn; lia. Qed.
